@@ -12,6 +12,7 @@
 package kcp
 
 import (
+	"encoding/binary"
 	"fmt"
 	"io"
 	"net"
@@ -830,6 +831,68 @@ func waitScSockErr(sd *waitSide, n int) func(*waitEnv, *waitResult, *waitScenari
 }
 
 // n messages in n separate datagrams: every datagram posts its own token
+// A data packet is lost; the next data packet and the group's parity arrive: the packet that
+// makes a blocked Read possible is a PARITY packet (the FEC decoder reconstructs the lost one and
+// feeds it to the core).  Nothing else arrives afterwards, so nothing else can wake the reader.
+func waitScReadFecRecovery(e *waitEnv, r *waitResult, sc *waitScenario) {
+	srv, cli := e.hub.listen("srvfec"), e.hub.listen("clifec")
+	l, err := ServeConn(nil, 2, 1, srv)
+	if err != nil {
+		r.setupErr = err
+		return
+	}
+	defer l.Close()
+	fc, _ := NewConn3(7000+waitConvCounter.Add(1), waitAddr("srvfec"), nil, 2, 1, cli)
+	defer fc.Close()
+	waitTune(fc)
+	fc.Write([]byte("setup-0")) // FEC ids 0 and 1: the first group is complete and out of the way
+	l.SetReadDeadline(time.Now().Add(5 * time.Second))
+	fs, err := l.AcceptKCP()
+	if err != nil {
+		r.setupErr = fmt.Errorf("fec setup accept: %v", err)
+		return
+	}
+	defer fs.Close()
+	waitTune(fs)
+	buf := make([]byte, 64)
+	fs.SetReadDeadline(time.Now().Add(5 * time.Second))
+	fs.Read(buf)
+	fc.Write([]byte("setup-1"))
+	fs.Read(buf)
+	fs.SetReadDeadline(time.Time{})
+	time.Sleep(40 * time.Millisecond) // acknowledgements travel; the client falls silent
+	call := e.goRead(fs, 0, 256)
+	sc.sep()
+	if !waitExpectBlocked(e, r, &waitReadSide, []*waitCall{call}, "before the data") {
+		return
+	}
+	srv.gate() // from now on nothing reaches the server unless the harness hands it over
+	cli.gate() // (and the client hears nothing back)
+	fc.Write([]byte("lost-message"))
+	fc.Write([]byte("next-message"))
+	time.Sleep(8 * time.Millisecond)
+	srv.mu.Lock()
+	held := append([]waitPkt(nil), srv.held...)
+	srv.mu.Unlock()
+	// the first three datagrams of the client are data, data, parity of one group
+	typ := func(p waitPkt) uint16 {
+		if len(p.data) < 6 {
+			return 0
+		}
+		return binary.LittleEndian.Uint16(p.data[4:])
+	}
+	if len(held) < 3 || typ(held[0]) != typeData || typ(held[1]) != typeData || typ(held[2]) != typeParity {
+		r.setupErr = fmt.Errorf("fec setup: expected data, data, parity - got %d datagrams", len(held))
+		return
+	}
+	e.logf("data packet 1 of the group is lost; data packet 2 and the parity packet are delivered")
+	srv.in <- held[1]
+	time.Sleep(10 * time.Millisecond)
+	srv.in <- held[2]
+	waitExpectAll(e, r, &waitReadSide, []*waitCall{call}, "data", time.Time{}, time.Now().Add(waitMargin),
+		"read-data-lost-wakeup:fec-recovery", "", "the parity packet completed the group and the lost message was reconstructed")
+}
+
 func waitScReadSeparate(n int) func(*waitEnv, *waitResult, *waitScenario) {
 	return func(e *waitEnv, r *waitResult, sc *waitScenario) {
 		sd := &waitReadSide
@@ -1040,6 +1103,7 @@ func waitCatalogue(thorough bool, rng *vrng) []*waitScenario {
 		add("wake-separate-datagrams", "Read", 3, true, waitScReadSeparate(3))
 	}
 	add("wake-short-buffer", "Read", 2, true, waitScReadShort)
+	add("wake-fec-recovery", "Read", 1, false, waitScReadFecRecovery)
 	// one datagram, several messages and/or a message longer than a buffer, >= 3 readers: each of
 	// the three successful paths of Read (bufptr, direct, recvbuf) is in turn the LAST one that
 	// must pass the token on (readers are served in parking order)
